@@ -2,14 +2,20 @@
 
 package stream
 
+import "sync/atomic"
+
 // Accessors for the verification harness (/verif, property C18). Compiled only with
 // -tags verif; called by the harness scheduler while the stream's goroutines are parked.
 
-// VerifSinkCounts returns the number of registered async and sync sinks without locking.
-func (s *Stream) VerifSinkCounts() (int, int) { return len(s.sinks), len(s.syncSinks) }
+// VerifSinkCounts returns the number of registered async and sync sinks.
+func (s *Stream) VerifSinkCounts() (int, int) {
+	s.sinksMux.RLock()
+	defer s.sinksMux.RUnlock()
+	return len(s.sinks), len(s.syncSinks)
+}
 
 // VerifStopped reports the stopped flag.
-func (s *Stream) VerifStopped() bool { return s.stopped == 1 }
+func (s *Stream) VerifStopped() bool { return atomic.LoadInt32(&s.stopped) == 1 }
 
 // VerifSinkPoolLen returns the number of queued sink tasks.
 func (s *Stream) VerifSinkPoolLen() int { return len(s.sinkWorkerPool) }
